@@ -2,7 +2,7 @@
 triages violations against known_findings.json, replays them natively and writes the evidence file."""
 import argparse, hashlib, importlib, json, multiprocessing as mp, os, subprocess, sys, time, traceback
 
-VERIF = '/verif'
+VERIF = os.path.dirname(os.path.dirname(os.path.abspath(__file__)))
 REPO = '/repo'
 BUILD = os.path.join(VERIF, 'build')
 sys.path.insert(0, os.path.join(VERIF, 'mirsym'))
